@@ -411,7 +411,9 @@ class CallMixin:
     def construct(self, cls_q, args, kwargs, n, st, frame) -> AV:
         ci = self.prog.classes[cls_q]
         obj = AV(types=frozenset({cls_q}), alias=frozenset({self.fresh_loc(frame, n, "new")}))
-        argdeps = frozenset().union(*[a.deps for a in list(args) + list(kwargs.values())]) if (args or kwargs) else frozenset()
+        # (a tuple / list handed to a constructor carries the dependences of its components: State((a.value, b.value)))
+        argdeps = frozenset().union(*[all_deps(a) if (a.items is not None or a.elem is not None) else a.deps
+                                      for a in list(args) + list(kwargs.values())]) if (args or kwargs) else frozenset()
         init = self.prog.find_method(cls_q, "__init__")
         self.ev(frame, st, "new", n, callee=cls_q, args=tuple(args), kwargs=tuple(sorted(kwargs.items())), result=obj)
         if init is not None:
